@@ -17,7 +17,7 @@ func init() {
 func runC06(r *engine.Run) {
 	r.Rule("DOM-nomapswap", "whenever a per-key versions map is (re)installed in the state cache's key->versions map, any freshly allocated map among its provenance is allocated only on the not-found edge of the lookup of that key: an existing map (holding other blocks' entries) is never replaced")
 	r.Rule("DOM-tombstone", "every Clone() of a cache entry's data that is handed out is reached only on paths where the same entry's deleted flag tested false (feasible-path enumeration with structural atom equality)")
-	r.Rule("DOM-ownfirst", "TransactionCache.Get and BlockCache.Get delegate to the next layer only on paths where their own map lookup missed; BlockCache.Get delegates with its previous-block hash")
+	r.Rule("DOM-ownfirst", "TransactionCache.Get and BlockCache.Get delegate to the next layer only on paths where their own map lookup missed; BlockCache.Get continues at its previous block's hash only where the block is known not to be committed, and at its own hash where it is (commit empties the pending map and files the block's writes under its own hash; the marker is a bool field commit sets)")
 	r.Rule("DEP-walk", "in StateCache.Get every block hash used to look into the per-key map or the link map is the queried hash or the link stored for the previously used hash (no other source); a memoised entry is stored under the queried hash and is the entry found")
 	r.Rule("WHO-readonly", "the lookups of the transaction cache and of the block cache (and everything they reach in those types) never store into their own pending map: a pending map is a write set that Commit publishes, so a memoised read would be flushed as a write and overwrite another transaction's committed write")
 	r.Rule("ORDER-publish", "see C08: a block's ancestor link is published only after all of the block's keys are written (a lookup that runs during the commit must not walk past the half-written block)")
@@ -330,9 +330,45 @@ func domOwnFirst(r *engine.Run) {
 			if spec.prevField != "" {
 				args := c.Call.Args
 				hashArg := args[len(args)-1]
-				fld := fieldLoadOf(hashArg)
-				r.Check(fld != nil && fld.Name() == spec.prevField, rule, fn(f)+"|delegate-hash", r.P.Pos(c.Pos()),
-					"delegates with the previous block's hash", "BlockCache.Get must continue the lookup at the previous block (its own block is not committed yet)")
+				// where the lookup continues: at the previous block while the block's writes are in its
+				// pending map; at the block's own hash once commit has moved them to the state cache
+				// (commit empties the pending map, so a committed block that kept starting at its
+				// parent would answer its own keys with an ancestor's value)
+				markers, clears := commitMarkers(r)
+				type alt struct {
+					v    ssa.Value
+					from *ssa.BasicBlock
+				}
+				alts := []alt{{hashArg, c.Block()}}
+				if ph, ok := hashArg.(*ssa.Phi); ok {
+					alts = nil
+					for i, e := range ph.Edges {
+						alts = append(alts, alt{e, ph.Block().Preds[i]})
+					}
+				}
+				good2, why2 := true, ""
+				for _, a := range alts {
+					fld := fieldLoadOf(a.v)
+					if fld == nil {
+						good2, why2 = false, "the hash handed down is not a field of the block cache"
+						break
+					}
+					committedHere, known := markerFact(f, a.from, markers)
+					switch fld.Name() {
+					case spec.prevField:
+						if clears && !(known && !committedHere) {
+							good2, why2 = false, "the lookup continues at the previous block on a path where the block may already be committed (commit empties the pending map: the block's own writes are then only under its own hash, and starting at the parent answers them with an ancestor's value)"
+						}
+					case "blockHash":
+						if !(known && committedHere) {
+							good2, why2 = false, "the lookup continues at the block's own hash on a path where the block is not known to be committed (an uncommitted block has no link in the state cache: every lookup would miss)"
+						}
+					default:
+						good2, why2 = false, "the hash handed down is neither the previous block's nor the block's own"
+					}
+				}
+				r.Check(good2, rule, fn(f)+"|delegate-hash", r.P.Pos(c.Pos()),
+					"continues at the previous block while uncommitted, at the own hash once committed", "BlockCache.Get: "+why2)
 			}
 		})
 		if n == 0 {
@@ -1420,4 +1456,56 @@ func loadOfFieldOrField(v ssa.Value) (ssa.Value, string, bool) {
 		}
 	}
 	return nil, "", false
+}
+
+// commitMarkers: the bool fields of BlockCache that StateCache.commit (or a helper
+// of it) sets to true, and whether commit replaces the block's pending map.
+func commitMarkers(r *engine.Run) (map[string]bool, bool) {
+	markers := map[string]bool{}
+	clears := false
+	commit, err := r.P.Func(pkgSC, "StateCache", "commit")
+	if err != nil {
+		return markers, false
+	}
+	for _, g := range opGroup(r, commit) {
+		engine.Instrs(g, func(in ssa.Instruction) {
+			st, ok := in.(*ssa.Store)
+			if !ok {
+				return
+			}
+			fa, ok := st.Addr.(*ssa.FieldAddr)
+			if !ok || !isNamed(fa.X.Type(), pkgSC, "BlockCache") {
+				return
+			}
+			fld := engine.FieldOf(fa)
+			if fld == nil {
+				return
+			}
+			if fld.Name() == "cache" {
+				clears = true
+			}
+			if c := constVal(st.Val); c != nil && c.ExactString() == "true" {
+				markers[fld.Name()] = true
+			}
+		})
+	}
+	return markers, clears
+}
+
+// markerFact: at block b of f, one of the marker fields of the receiver is known
+// true (committed) or false.
+func markerFact(f *ssa.Function, b *ssa.BasicBlock, markers map[string]bool) (committed, known bool) {
+	facts, ok := engine.FactsOn(f, b)
+	if !ok {
+		return false, false
+	}
+	for _, ft := range facts {
+		if ft.Kind != "bool" {
+			continue
+		}
+		if fld := fieldLoadOf(ft.A); fld != nil && markers[fld.Name()] {
+			return ft.Truth, true
+		}
+	}
+	return false, false
 }
